@@ -3,4 +3,6 @@ import Gecs.Model.World
 import Gecs.Model.Query
 import Gecs.Model.Macro
 import Gecs.Model.Check
+import Gecs.Model.History
 import Gecs.Driver
+import Gecs.Lemmas.Inv
